@@ -239,6 +239,8 @@ class CallMixin:
             if x is None or isinstance(x, VNone): return F
             if isinstance(x, VNum):
                 if "Number" in names or "Real" in names: return T
+                if getattr(x, "pytype", None) == "np.float32":          # a numpy scalar that is a Number but not a python float/int
+                    return z3.BoolVal(any(k in names for k in ("floating", "float32", "generic")))
                 if "float" in names and "int" in names: return T
                 if "int" in names:
                     if x.isint is None: raise Unsupported(f"isinstance(number of unknown int-ness, int) @ {self.where(n)}")
